@@ -297,7 +297,7 @@ ENGINES["C19"].append(parallel_engine)
 # ---------------------------------------------------------------------------------------------------------------
 # Plain unit-test replays of the repaired findings F1-F3 (regressions/tests/findings.rs): fail if one returns
 # ---------------------------------------------------------------------------------------------------------------
-REGRESSION_TESTS = {"C07": "f1_trace_panic_leaves_no_stale_tracing_counter", "C14": "f2_new_cyclic_with_panicking_automatic_collection_touches_no_value", "C12": "f3_collection_started_from_rc_finalizer_is_observable"}
+REGRESSION_TESTS = {"C07": "f1_trace_panic_leaves_no_stale_tracing_counter", "C14": "f2_new_cyclic_with_panicking_automatic_collection_touches_no_value", "C12": "f3_collection_started_from_rc_finalizer_is_observable", "C10": "f4_cleaning_actions_reentering_their_own_cleaner"}
 
 
 def regressions_engine(prop, tier, seed, out, known):
